@@ -68,6 +68,8 @@ struct Params {
     /// the harness also plays the daser: percentage of unsampled in-window stored heights marked
     /// as sampled at every network tick (0 = no daser, the syncer's slow-sync throttle stays shut)
     daser_pct: u32,
+    /// the whole chain (network head included) is older than the sampling window
+    stalled: bool,
 }
 
 fn gen_params(rng: &mut impl Rng, case: u64) -> Params {
@@ -88,6 +90,7 @@ fn gen_params(rng: &mut impl Rng, case: u64) -> Params {
             prefix_pct: 0,
             max_delay_ms: 50,
             daser_pct: 100,
+            stalled: false,
         };
     }
     let batch = *[8u64, 16, 16, 32, 32, 64, 64, 128, 512].choose(rng).unwrap();
@@ -110,6 +113,9 @@ fn gen_params(rng: &mut impl Rng, case: u64) -> Params {
         prefix_pct: *[0u32, 10, 30].choose(rng).unwrap(),
         max_delay_ms: *[30u64, 500, 2500].choose(rng).unwrap(),
         daser_pct: *[0u32, 100, 100, 100, 100, 60].choose(rng).unwrap(),
+        // every 8th run: an old / stalled chain, where the window must be measured against the
+        // local clock and not against the chain's own head
+        stalled: case % 8 == 5,
     }
 }
 
@@ -136,7 +142,11 @@ struct RunOut {
 
 async fn simulate(p: &Params, rng: &mut vcore::ChaCha8Rng, wall: Duration) -> Result<RunOut, String> {
     let bt = Duration::from_secs(p.bt_s);
-    let layout = Layout::new(p.n_old, p.n_new + MAX_TICKS + 4, bt, Duration::from_secs(p.extra_window_s));
+    let layout = if p.stalled {
+        Layout::new_stalled(p.n_old, p.n_new + MAX_TICKS + 4, bt, Duration::from_secs(p.extra_window_s))
+    } else {
+        Layout::new(p.n_old, p.n_new + MAX_TICKS + 4, bt, Duration::from_secs(p.extra_window_s))
+    };
     let h0 = p.n_old + p.n_new;
     let mut chains = Chains::new(rng, layout.clone(), p.n_vals, h0, false);
     let window = layout.window;
@@ -557,6 +567,10 @@ pub fn run(ctx: &Ctx) {
                 ctx.count("runs_syncer_dead_at_end");
             }
             let (found, st) = check(&out);
+            if p.stalled {
+                ctx.count("runs_stalled_chain_all_heights_old");
+                ctx.count_n("stalled_chain_window_checks_at_stored_old_header", st.declined_at_stored_old);
+            }
             if std::env::var("VERIF_DEBUG").is_ok() {
                 let end = out.log.last().map(|r| r.vt_ms).unwrap_or(0);
                 eprintln!(
@@ -606,6 +620,8 @@ pub fn run(ctx: &Ctx) {
     });
     // Coverage floors qualify a "held" verdict; they must not turn found violations into "inconclusive".
     if ctx.violation_count() == 0 {
+        ctx.floor("runs_stalled_chain_all_heights_old", ctx.scale(6, 200));
+        ctx.floor("stalled_chain_window_checks_at_stored_old_header", ctx.scale(6, 200));
         ctx.floor("runs_with_gap_below_old_synced_header", ctx.scale(30, 1000));
         ctx.floor("runs_syncer_stopped_at_stored_old_edge", ctx.scale(25, 800));
         ctx.floor("runs_triggered_with_pruned_old_edge", ctx.scale(12, 550));
